@@ -166,6 +166,27 @@ pub fn build_base(seed: u64) -> Base {
     let pos_b = open(&mut w, p_b, owner, -1280, 1280, false);
     fund(&mut w, pos_b, 4_000_000_000);
     let empty_foreign = vec![open(&mut w, p_a3, owner, -2560, 1280, false), open(&mut w, p_b, owner, -1280, 2560, true), open(&mut w, p_a2, owner, -640, 640, false), open(&mut w, p_t, owner, -640, 1280, true)];
+    // a second locked position of the same holder, in another pool (its LockConfig is the one to offer in place of te_locked's)
+    {
+        let extra = open(&mut w, p_a3, owner, -2560, 2560, true);
+        fund(&mut w, extra, 500_000_000);
+        let pi = w.positions[extra].clone();
+        let ix = b::LockPosition {
+            funder: ADMIN,
+            position_authority: w.users[owner].key,
+            position: pi.position,
+            position_mint: pi.mint,
+            position_token_account: pi.token_account,
+            lock_config: b::pda_lock_config(pi.position).0,
+            whirlpool: w.pools[p_a3].key,
+            token_2022_program: TOKEN22,
+            system_program: system_program::ID,
+        }
+        .ix(b::LockType::Permanent);
+        let o = w.exec(ix);
+        assert!(o.ok(), "catalogue set-up: second lock failed {:?} {:?}", o.out.err, o.out.logs);
+        w.positions[extra].locked = true;
+    }
     // lock te_locked
     {
         let pi = w.positions[te_locked].clone();
